@@ -121,14 +121,14 @@ CHECKS['C07'] = {
 }
 CHECKS['C19'] = {
     'level': 'proof',
-    'units': ['resp'],
+    'units': ['resp', 'path'],
     'kani': [],
     'technique': 'contract-based deductive verification (Verus) of the method/status/content-format/observe accessors against the raw message view',
-    'level_text': 'Proof for the claimed accessors, for all packets (whatever was stored before): get/set_method and get/set_status agree with the code field for every variant and every code byte (unnamed ones read as UnKnown); set_content_format replaces the Content-Format option by the minimal uint of the registry id and get_content_format returns the registry entry of the first value (None if absent, longer than 2 bytes or unassigned); set_observe_flag / get_observe_flag likewise through the Observe option (values longer than 4 bytes or other than 0/1 give Err).',
-    'level_note': 'Trusted: as C07. NOT covered (reported in evidence): URI-path string accessors (split/join on str) and the coap-message 0.2/0.3 trait views (external crates cannot be linked into single-file Verus; packet-level Kani harnesses too expensive).',
-    'trusted': [T_VERUS, T_R1, T_DEF, T_CLOS, T_UINT],
-    'not_covered': ['set_path/get_path/get_path_as_vec (str split/join)', 'impl_coap_message.rs / impl_coap_message_0_3.rs trait views'],
-    'explanation': 'unit resp (includes the accessor layer of unit acc)',
+    'level_text': 'Proof for the claimed accessors, for all packets (whatever was stored before): get/set_method and get/set_status agree with the code field for every variant and every code byte (unnamed ones read as UnKnown); set_content_format replaces the Content-Format option by the minimal uint of the registry id and get_content_format returns the registry entry of the first value (None if absent, longer than 2 bytes or unassigned); set_observe_flag / get_observe_flag likewise through the Observe option (values longer than 4 bytes or other than 0/1 give Err). Unit path: set_path(s) leaves exactly the pieces of s between \'/\' (minus the empty piece before a leading \'/\') as Uri-Path values, in order, and nothing else changed; get_path returns the valid-UTF-8 values joined by \'/\'; theorem: get_path after set_path(s) returns s without one leading \'/\', for every string.',
+    'level_note': 'Trusted: as C07. Unit path assumes contracts for the std string functions (str::split(char) == split_on, [&str]::join == join_with, as_bytes/from_utf8 inverse on text, is_empty, to_string) and reads `for (i, s) in segs.enumerate()` as the equivalent index loop (R32). NOT covered (reported in evidence): get_path_as_vec and the coap-message 0.2/0.3 trait views (external crates cannot be linked into single-file Verus; packet-level Kani harnesses too expensive).',
+    'trusted': [T_VERUS, T_R1, T_DEF, T_CLOS, T_UINT, 'std string functions used by set_path/get_path (str::split(char), Enumerate, str::is_empty, str::as_bytes, core::str::from_utf8, [&str]::join, str::to_string): contracts assumed in unit path over the spec functions split_on / join_with / utf8_bytes / utf8_text (UTF-8 decoding inverts encoding: axiom)'],
+    'not_covered': ['get_path_as_vec (iterator adapters)', 'impl_coap_message.rs / impl_coap_message_0_3.rs trait views'],
+    'explanation': 'units resp and path (both include the accessor layer of unit acc)',
 }
 
 CHECKS['C18'] = {
